@@ -299,7 +299,7 @@ static void String_Resize(var self, size_t n) {
   s->val = val;
   
   if (n > m) {
-    memset(&s->val[m], 0, n - m);
+    memset(&s->val[m], 0, n - m + 1);
   } else {
     s->val[n] = '\0';
   }
